@@ -685,6 +685,72 @@ pub fn execute(plan: &Plan) -> Exec {
             if !ex.problems.is_empty() {
                 break;
             }
+            // ---- (1b) the same restore while storage calls on the target fail: a restore that reports success must
+            // still have produced the collection; one that fails loudly is fine
+            let mut frng = Rng::new(p.damage_seed ^ (0xF00D + i as u64));
+            if frng.chance(1, 2) {
+                let ftarget = format!("{}/rf{}", base, i);
+                mkdir(&ftarget);
+                let froot = simlibc::register_root(&ftarget, None, false);
+                let mut rules: Vec<crate::c03::RuleSpec> = Vec::new();
+                for _ in 0..frng.range(1, 2) {
+                    let errno = *frng.pick(&[libc::ENOSPC, libc::EIO, libc::EDQUOT]);
+                    let r = frng.below(10);
+                    rules.push(if r < 4 {
+                        crate::c03::RuleSpec { kind: "write".into(), role: None, nth: frng.range(1, 6) as u32, action: crate::c03::ActionSpec::Errno(errno) }
+                    } else if r < 7 {
+                        crate::c03::RuleSpec { kind: "write".into(), role: None, nth: frng.range(1, 6) as u32, action: crate::c03::ActionSpec::Short(frng.range(1, 40) as usize) }
+                    } else if r < 9 {
+                        crate::c03::RuleSpec { kind: "fsync".into(), role: None, nth: frng.range(1, 4) as u32, action: crate::c03::ActionSpec::Errno(errno) }
+                    } else {
+                        crate::c03::RuleSpec { kind: "open".into(), role: None, nth: frng.range(1, 4) as u32, action: crate::c03::ActionSpec::Errno(errno) }
+                    });
+                }
+                ex.evals += 1;
+                let outcome = match RestoreManager::new(&bk, &ftarget) {
+                    Ok(rm) => {
+                        simlibc::arm_faults(rules.iter().map(crate::c03::to_rule).collect());
+                        let r = catch_unwind(AssertUnwindSafe(|| rm.restore_from_backup(id)));
+                        let fired = simlibc::disarm_faults().iter().filter(|f| f.fired).count();
+                        Some((r, fired))
+                    }
+                    Err(_) => None,
+                };
+                simlibc::unregister_root(froot);
+                if let Some((r, fired)) = outcome {
+                    let ffacts = [("backup", kind_of(b)), ("restore_storage_fault", if fired > 0 { "fired" } else { "none" })];
+                    match r {
+                        Ok(Ok(())) => {
+                            if fired > 0 {
+                                *ex.probes.entry("restore_succeeded_although_a_storage_call_failed".into()).or_insert(0) += 1;
+                            }
+                            match catch_unwind(AssertUnwindSafe(|| Eng::recover(&p.cfg, &ftarget))) {
+                                Ok(Ok(e)) => {
+                                    let c = census(e.backend(), p.universe);
+                                    drop(e);
+                                    if c != b.expected && Some(&c) != b.expected_alt.as_ref() {
+                                        ex.problems.push(prob("restored_collection_differs", format!("backup #{} ({}): the restore reported success while storage calls on the target failed ({} fired), but the collection started from it differs: {}", i, kind_of(b), fired, census_diff(&b.expected, &c)), &ffacts));
+                                    }
+                                }
+                                Ok(Err(e)) => ex.problems.push(prob("restored_directory_does_not_start", format!("backup #{} ({}): the restore reported success while storage calls on the target failed ({} fired), but the directory does not start: {}", i, kind_of(b), fired, mask_digits(&format!("{:#}", e))), &ffacts)),
+                                Err(_) => ex.problems.push(prob("restored_directory_does_not_start", format!("backup #{}: engine start on the restored directory panicked", i), &ffacts)),
+                            }
+                        }
+                        Ok(Err(e)) => {
+                            if fired == 0 {
+                                ex.problems.push(prob("restore_of_verified_backup_failed", format!("backup #{} ({}): restore failed although no storage fault fired: {:#}", i, kind_of(b), e), &ffacts));
+                            } else {
+                                *ex.probes.entry("restore_failed_loudly_under_storage_fault".into()).or_insert(0) += 1;
+                            }
+                        }
+                        Err(_) => ex.problems.push(prob("restore_of_verified_backup_failed", format!("backup #{}: restore panicked under a storage fault", i), &ffacts)),
+                    }
+                }
+                remove_dir(&ftarget);
+                if !ex.problems.is_empty() {
+                    break;
+                }
+            }
         }
         // ---- (2) point-in-time targets
         if ex.problems.is_empty() {
